@@ -10,6 +10,55 @@ BASE = "gwf.backends.base"
 EXC = "gwf.backends.exceptions"
 
 
+def rule_scheduler_errors_are_backend_errors(ctx, r, h):
+    """"scheduler error ... does not prevent the remaining ones": the per-target handler of `gwf cancel` absorbs BackendError (and TargetError), so whatever the
+    scheduler-command runner backends.utils.call raises on purpose must BE a BackendError: every `raise X` in it (and its private helpers) has X <= BackendError, a bare
+    re-raise sits in a handler for BackendError only, and a blocking call given a timeout= is inside a try that converts the expiry."""
+    idx = ctx.index
+    res = ctx.resolver
+    call_f = idx.func("gwf.backends.utils:call")
+    funcs = [call_f] + [f for f in idx.functions.values() if f.module.name == "gwf.backends.utils" and f.key != call_f.key and res.owned_by(f, [call_f.key])]
+    BE = f"{EXC}.BackendError"
+    n = 0
+    for f in funcs:
+        con = f"{f.module.relpath}::{f.qual}"
+        for node in walk_no_nested(f.node):
+            if isinstance(node, ast.Raise):
+                n += 1
+                if node.exc is None:
+                    hd = next((a for a in ancestors(node) if isinstance(a, ast.ExceptHandler)), None)
+                    types = []
+                    if hd is not None and hd.type is not None:
+                        types = [idx.canon(e, f.module) for e in (hd.type.elts if isinstance(hd.type, ast.Tuple) else [hd.type])]
+                    ok = bool(types) and all(t is not None and h.is_sub(t, BE) for t in types)
+                    r.check(ok, con + "::re-raise", "re-raises a BackendError only",
+                            f"{f.qual} re-raises {[t or '?' for t in types] or 'whatever was caught'} (line {node.lineno}): that is not a BackendError, so the handler around each target's "
+                            "cancellation does not absorb it - one hanging or failing scheduler command ends `gwf cancel` with a traceback and the remaining targets are never cancelled",
+                            loc(node, f.module))
+                else:
+                    e = node.exc.func if isinstance(node.exc, ast.Call) else node.exc
+                    t = idx.canon(e, f.module) if isinstance(e, (ast.Name, ast.Attribute)) else None
+                    ok = t is not None and h.is_sub(t, BE)
+                    r.check(ok, con + f"::raise-{(t or 'unknown').rsplit('.', 1)[-1]}", "raises BackendError (or a subclass)",
+                            f"{f.qual} raises {t or ast.unparse(e)} (line {node.lineno}), which is not a BackendError: the handler around each target's cancellation does not absorb it and "
+                            "the remaining targets are never cancelled", loc(node, f.module))
+            if isinstance(node, ast.Call) and any(k.arg == "timeout" and not (isinstance(k.value, ast.Constant) and k.value.value is None) for k in node.keywords) \
+                    and isinstance(node.func, ast.Attribute) and node.func.attr in ("communicate", "wait", "run", "check_output", "check_call", "call"):
+                n += 1
+                guarded = False
+                for a in ancestors(node):
+                    if isinstance(a, ast.Try) and any(node in list(ast.walk(s)) for s in a.body):
+                        for hd in a.handlers:
+                            types = [None] if hd.type is None else [idx.canon(e, f.module) for e in (hd.type.elts if isinstance(hd.type, ast.Tuple) else [hd.type])]
+                            if any(t is None or t in ("subprocess.TimeoutExpired", "builtins.Exception", "subprocess.SubprocessError") for t in types):
+                                guarded = True
+                r.check(guarded, con + "::timeout", "the expiry of the time limit is caught (and converted)",
+                        f"{f.qual} gives a scheduler command a time limit (line {node.lineno}) but lets subprocess.TimeoutExpired escape: it is not a BackendError, so one hanging "
+                        "scancel/qdel/bkill ends `gwf cancel` and the remaining targets are never cancelled", loc(node, f.module))
+    r.check(n >= 1, f"{call_f.module.relpath}::{call_f.qual}::raises", f"{n} raise/timeout site(s) in the scheduler-command runner, all BackendError",
+            "backends.utils.call never raises: a failing scheduler command would pass unnoticed", call_f.where)
+
+
 def run(ctx):
     idx = ctx.index
     res = ctx.resolver
@@ -79,6 +128,7 @@ def run(ctx):
                              "the UnsupportedOperationError handler is shadowed by an earlier, more general handler", loc(uo[0], cm.module))
 
     ctx.structural_or_witness(r1, structural_r1, witness, ccon, both=True)
+    rule_scheduler_errors_are_backend_errors(ctx, r1, h)
 
     r2 = ctx.rule("R2", "exactly the selected targets: patterns via filter_names, else all; cancel uses the job id tracked under the target's own name", min_instances=5)
     cc = idx.func("gwf.plugins.cancel:cancel")
@@ -172,5 +222,11 @@ def run(ctx):
     if unsup is None:
         r2.check(not diffs, "src/gwf/backends/local.py::Server.handle_connection::cancel_task", "the pool's server hands a cancel_task request to scheduler.cancel_task(<that id>)",
                  "; ".join(diffs[:2]), cl.where)
+    # "the most recent job of every selected target": the id must still be on record when `gwf cancel` is typed, whatever gwf commands ran in between and
+    # whatever those saw of the job (a job the scheduler reports in an error or unknown state is still alive there)
+    from .c07 import rule_tracked_dump
+    from .persist import rule_close_writes
+    rule_tracked_dump(ctx, r2)
+    rule_close_writes(ctx, r2, ("tracked jobs",))
     r3 = ctx.rule("R3", "after cancellation the next run is free to resubmit (CANCELLED/FAILED rows of the decision table)")
     rule_decision_table(ctx, r3)
